@@ -137,8 +137,12 @@ def subtotal_rule(ctx: Ctx):
         "subtotal-pruning",
         f"{MA}::_BaseOrderHelper._display_order",
         e,
-        "np.array([idx for idx in self._order if idx >= 0], dtype=None if self._format == ORDER_FORMAT.BOGUS_IDS else int) "
-        "if self._prune_subtotals else np.array(self._order, dtype=None if self._format == ORDER_FORMAT.BOGUS_IDS else int)",
+        [
+            "np.array([idx for idx in self._order if not isinstance(idx, str) and idx >= 0], dtype=None if self._format == ORDER_FORMAT.BOGUS_IDS else int) "
+            "if self._prune_subtotals else np.array(self._order, dtype=None if self._format == ORDER_FORMAT.BOGUS_IDS else int)",
+            "np.array([idx for idx in self._order if idx >= 0], dtype=None if self._format == ORDER_FORMAT.BOGUS_IDS else int) "
+            "if self._prune_subtotals else np.array(self._order, dtype=None if self._format == ORDER_FORMAT.BOGUS_IDS else int)",
+        ],
         "subtotals (negative idx) are dropped exactly when the subtotal-pruning rule fires; base elements are never dropped here",
     )
 
